@@ -943,3 +943,58 @@ func addrRootedAt(addr, root ssa.Value) bool {
 	}
 	return walk(addr)
 }
+
+// gateReceiver: does some fact at block b establish that fn(recv, ...) returned `truth`, either directly or through a
+// repo helper H whose every `return T` (T = the truth with which H's result is known at b) lies under such a fact?
+// Returns the receiver of fn expressed in b's function (through H's parameters), or nil.
+func gateReceiver(b *ssa.BasicBlock, fn *ssa.Function, truth bool, depth int) ssa.Value {
+	for _, ft := range factsAt(b) {
+		call, ok := ft.Cond.(*ssa.Call)
+		if !ok {
+			continue
+		}
+		sc := call.Call.StaticCallee()
+		if sc == nil {
+			continue
+		}
+		if sc == fn && ft.Truth == truth && len(call.Call.Args) > 0 {
+			return call.Call.Args[0]
+		}
+		if depth >= 2 || !isRepoFn(sc) || len(sc.Blocks) == 0 || sc.Signature.Results().Len() != 1 {
+			continue
+		}
+		// helper: every return that can yield ft.Truth must be gated inside
+		var recvParam *ssa.Parameter
+		okAll, n := true, 0
+		eachInstr(sc, func(i ssa.Instruction) {
+			r, isR := i.(*ssa.Return)
+			if !isR {
+				return
+			}
+			if bv, isK := constBool(r.Results[0]); isK && bv != ft.Truth {
+				return
+			}
+			n++
+			inner := gateReceiver(r.Block(), fn, truth, depth+1)
+			p, isP := inner.(*ssa.Parameter)
+			if inner == nil || !isP {
+				// a non-constant result that is itself the gate's verdict: `return !t.AccessDenied(r) && t.Authorized(...)` is not modelled
+				okAll = false
+				return
+			}
+			if recvParam != nil && recvParam != p {
+				okAll = false
+			}
+			recvParam = p
+		})
+		if !okAll || n == 0 || recvParam == nil {
+			continue
+		}
+		for k, p := range sc.Params {
+			if p == recvParam && k < len(call.Call.Args) {
+				return call.Call.Args[k]
+			}
+		}
+	}
+	return nil
+}
